@@ -124,6 +124,34 @@ C11_CASES = {
 }
 
 
+def _guard(e):
+    return ("try", [("print", e)], [("e", None, [("print", ("call", ("prop", ("call", ("prop", V("e"), "cls"), []), "name"), []))])])
+
+
+C11_CASES.update({
+    ("C11", "take-negative-count", "3aabdb3"):
+        [("let", "l", ("list", [N(1), N(2), N(3)])),
+         _guard(("call", ("prop", ("call", ("prop", ("call", ("prop", V("l"), "iter"), []), "take"), [("un", "-", N(5))]), "list"), []))],
+    ("C11", "remove-insert-fractional-index", "a490f6b"):
+        [("let", "l", ("list", [N(1), N(2), N(3), N(4)])),
+         _guard(("call", ("prop", V("l"), "remove"), [N(1.5)])), ("print", V("l")),
+         _guard(("call", ("prop", V("l"), "insert"), [N(1.5), N(9)])), ("print", V("l")),
+         _guard(("call", ("prop", V("l"), "remove"), [("bin", "/", N(0), N(0))])), ("print", V("l")),
+         _guard(("call", ("prop", V("l"), "insert"), [("bin", "/", N(0), N(0)), N(7)])), ("print", V("l"))],
+    ("C11", "map-literal-duplicate-key", "38a5f36"):
+        [("let", "m", ("map", [(S("a"), N(1)), (S("a"), N(2)), (N(3), N(5)), (N(3), ("true",))])),
+         ("print", ("index", V("m"), S("a"))), ("print", ("index", V("m"), N(3))), ("print", ("call", ("prop", V("m"), "len"), []))],
+    ("C11", "map-written-while-iterated", "7cd1e01"):
+        [("let", "m", ("map", [(("nil",), N(2)), (("false",), N(2)), (N(0.5), ("nil",))])),
+         ("let", "cnt", N(0)),
+         ("for", "kv", V("m"), [("expr", ("assign", V("cnt"), ("bin", "+", V("cnt"), N(1)))),
+                                ("expr", ("assign", ("index", V("m"), ("index", V("kv"), N(0))), N(7))),
+                                ("for", "j", ("call", ("prop", N(40), "times"), []),
+                                 [("expr", ("assign", ("index", V("m"), ("interp", ["n", V("cnt"), "_", V("j")])), N(1)))])]),
+         ("print", V("cnt")), ("print", ("call", ("prop", V("m"), "len"), []))],
+})
+
+
 C02_CASES = {
     ("C02", "for-iterable-lambda-names-loop-variable", "b5a9269"):
         [("fn", "f", [], [("let", "x", ("list", [N(1), N(2), N(3)])),
